@@ -7,7 +7,8 @@ from sa.dataflow import cmp_key, Poly
 TECHNIQUE = 'static analysis (ast): forward abstract interpretation of LimitOrderBook.update (stores and history appends exactly once), effect / ownership rules for books, typestate of dead books, sign tables of acq_price / liq_price, key-normalisation rule of Exchange.__getitem__ by value id'
 EXPLANATION = (
     "Decides the structural clauses of C14: (S1) LimitOrderBook.update stores each quote field from the event's field of the same "
-    "name and appends each of the six history columns exactly once on every path with the value of the *new* quote (mid = (ask+bid)/2); "
+    "name and appends each of the six history columns exactly once on every path with the value of the *new* quote (mid = (ask+bid)/2); nothing in the "
+    "package removes, reorders or rewrites an entry of a book's history columns (append-only, receivers by value id); "
     "(S2) Exchange.process_EventNBBO touches only the book of event.contract, books are created per key, and _books is touched only by "
     "the four accessors; (S3) update is called only from process_EventNBBO under `book.is_alive` of the same book, is_alive is written "
     "only by __init__ (True) and terminate (False), terminate re-initialises to NaN quotes, keeps the history and ends dead; "
